@@ -140,7 +140,10 @@ func (s sharedOptionsCommon) apply(opts *generator.GenOpts) {
 	opts.Copyright = string(s.CopyrightFile)
 	opts.StrictResponders = s.StrictResponders
 
-	swag.AddInitialisms(s.AdditionalInitialisms...)
+	if len(s.AdditionalInitialisms) > 0 {
+		// this rewrites process-wide tables of the swag package: not when there is nothing to add
+		swag.AddInitialisms(s.AdditionalInitialisms...)
+	}
 }
 
 func setCopyright(copyrightFile string) (string, error) {
